@@ -737,7 +737,14 @@ class SmiV2Parser(AbstractParser):
 
     def p_Entry(self, p):
         """Entry : ObjectName"""
-        p[0] = p[1][1][0]
+        entry = p[1][1][0]
+
+        if isinstance(entry, tuple):
+            # name(number): kept apart from the sub-trees of the syntax
+            # tree, which are tuples headed by the name of their kind
+            entry = list(entry)
+
+        p[0] = entry
 
     def p_DefValPart(self, p):
         """DefValPart : DEFVAL '{' Value '}'
